@@ -1,7 +1,7 @@
 """C01 - Backup round trip is the identity on file trees."""
-from specs import snapshot
+from specs import snapshot, restore
 
 LEVEL = 'proof'
-UNITS = [snapshot.chunk_done_unit('C01'), snapshot.stream_unit('C01')]
+UNITS = [snapshot.chunk_done_unit('C01'), snapshot.stream_unit('C01'), snapshot.producer_unit('C01'), restore.write_part_unit('C01'), restore.plan_unit('C01')]
 TRUSTED = []
 ASSUMPTIONS = []
